@@ -122,7 +122,7 @@ impl Property for C08 {
         vec!["decoders (flate2, zstd, liblzma, bzip2) and RustCrypto hashes are trusted; they are called directly, not through the crate under test".into()]
     }
     fn required_labels(&self, _t: Tier) -> Vec<&'static str> {
-        vec!["one-source-path-rewritten", "resigned-stale-signature-header", "above-threshold-gzip", "above-threshold-zstd", "above-threshold-xz", "above-threshold-bzip2", "with-ops", "comp-none"]
+        vec!["caller-written-signer", "one-source-path-rewritten", "resigned-stale-signature-header", "above-threshold-gzip", "above-threshold-zstd", "above-threshold-xz", "above-threshold-bzip2", "with-ops", "comp-none"]
     }
     fn phases(&self, tier: Tier) -> Vec<Phase<C08Case>> {
         vec![
@@ -149,6 +149,7 @@ impl Property for C08 {
                             if cfg.signer == Some(1) {
                                 cfg.signer = Some(2);
                             }
+                            cfg.lazy_signer = stale_sig == 0 && cfg.files.len() % 5 == 1;
                             C08Case { cfg, ops, stale_sig }
                         })
                         .boxed()
@@ -170,6 +171,9 @@ impl Property for C08 {
         }
         if cfg.reuse_source {
             o.label("one-source-path-rewritten");
+        }
+        if cfg.lazy_signer {
+            o.label("caller-written-signer");
         }
         if case.stale_sig != 0 && case.ops.iter().any(|x| !matches!(x, Op::Reparse)) {
             o.label("resigned-stale-signature-header");
